@@ -274,6 +274,15 @@ class Verifier(ExprMixin, StmtMixin, CallMixin, LibMixin, SpecMixin):
                 return {"<dict size>": ev(o.size)}
         return "<%s>" % type(v).__name__
 
+    def aggregate_canaries(self):
+        """A program point is vacuous only if it is unreachable on every path that got there (a loop body may well be
+        dead on one path, e.g. an alias case with an empty operand)."""
+        agg = {}
+        for w, l, r in self.canaries:
+            k = (w, l)
+            agg[k] = agg.get(k, False) or bool(r)
+        return [dict(what=w, line=l, reachable=r) for (w, l), r in agg.items()]
+
     # ------------------------------------------------------------ verification of one function
     def verify(self, qn, variant=None):
         """Returns dict(function, obligations[...], canaries, trusted, inlined, used_contracts, wall_s, error)."""
@@ -362,7 +371,7 @@ class Verifier(ExprMixin, StmtMixin, CallMixin, LibMixin, SpecMixin):
             res["error"] = "z3 exception: %s" % e
         res.update(
             obligations=[o.as_dict() for o in self.obligations],
-            canaries=[dict(what=w, line=l, reachable=bool(r)) for (w, l, r) in self.canaries],
+            canaries=self.aggregate_canaries(),
             trusted=sorted(self.trusted), inlined=sorted(self.inlined), used_contracts=sorted(self.used_contracts),
             loops_cut=list(self.loops_cut), paths=self.npaths, wall_s=round(time.time() - t0, 3),
         )
